@@ -22,12 +22,22 @@ def matchRoots (xs ys : List K) : K :=
   | x :: rest =>
     if ys.any (fun y => -((1 : K) / 5000000) < x - y ∧ x - y < (1 : K) / 5000000) then x else matchRoots rest ys
 
+/-- the helper `roots` inside `QuadraticBezier.tOfPoint` (F29): the solver's roots, or — when it finds none although the equation is
+    genuinely quadratic and its discriminant vanishes up to 1e-9 of its two terms — the double root -b/(2a) if that lies in [0, 1] -/
+def rootsOrDouble (sqrt : K → K) (a b c : K) : List K :=
+  let found := quadraticRoots sqrt a b c
+  if found = [] ∧ a ≠ 0 then
+    if |b * b - 4 * a * c| ≤ (1 : K) / 1000000000 * max (b * b) |4 * a * c| then
+      (if 0 ≤ -b / (2 * a) ∧ -b / (2 * a) ≤ 1 then [-b / (2 * a)] else [])
+    else []
+  else found
+
 /-- QuadraticBezier.tOfPoint -/
 def quadTOfPoint (sqrt : K → K) (a b c q : Pt K) : K :=
   match quad_tOfPoint_coeffs a.x a.y b.x b.y c.x c.y q.x q.y with
   | [ax, bx, cx, ay, by', cy] =>
-    let xr := quadraticRoots sqrt ax bx cx
-    let yr := quadraticRoots sqrt ay by' cy
+    let xr := rootsOrDouble sqrt ax bx cx
+    let yr := rootsOrDouble sqrt ay by' cy
     if xr = [] ∨ yr = [] then -1 else matchRoots xr yr
   | _ => -1
 
